@@ -1,6 +1,5 @@
 from typing import TypeVar, Generic, Optional, Type, Union, Dict
 
-from .._core.handler import __USIM_STATE__
 from ._resource_level import __specialise__, ResourceLevels
 from .tracked import Tracked
 
@@ -138,14 +137,10 @@ class BorrowedResources(BaseResources[T]):
 
     async def __aexit__(self, exc_type, exc_val, exc_tb):
         if exc_type is GeneratorExit:
-            # we are killed forcefully and cannot perform async operations
-            # dispatch a new activity to release our resources eventually
-            __USIM_STATE__.loop.schedule(
-                self.__remove_resources__(self._debits)
-            )
-            __USIM_STATE__.loop.schedule(
-                self._resources.__insert_resources__(self._debits)
-            )
+            # we are killed forcefully and cannot perform async operations:
+            # hand the resources back right away, without letting others run
+            self._available.__change__(self._available.value - self._debits)
+            self.__return_resources__()
         else:
             try:
                 await self.__remove_resources__(self._debits)
